@@ -1,7 +1,7 @@
 ----------------------------- MODULE MCScopes -----------------------------
 EXTENDS Scopes
-NameSet == {"sin", "cos", "alog", "log", "erf", "gamma"}
-F08Names == {"erf", "gamma"}
+NameSet == {"sin", "cos", "alog", "log", "erf", "gamma", "shiftr", "atan2"}
+F08Names == {"erf", "shiftl"}
 OneName == {"sin"}
 Specific == {"alog", "log"}
 Three == {"sin", "alog", "log"}
